@@ -83,7 +83,9 @@ def run(res, tier):
            # a large synchronous phase (radiation loss a sizeable fraction of the RF voltage: 18 and 29 degrees), both RF models
            # (linear RF: with the sinusoidal voltage the potential well itself is no longer q^2/2 there - its cubic term tan(phi_s) x phase-per-length x q^3/6 is 0.06 at
            # q = 2 - and the relation as stated does not apply)
-           ["--AcceleratingVoltage", 1.5e5], ["--BeamEnergy", 2.2e9, "--AcceleratingVoltage", 0.8e6], ["--HarmonicNumber", 184, "--RevolutionFrequency", 2.7e6]]
+           ["--AcceleratingVoltage", 1.5e5], ["--BeamEnergy", 2.2e9, "--AcceleratingVoltage", 0.8e6], ["--HarmonicNumber", 184, "--RevolutionFrequency", 2.7e6],
+           # the RF system with its noise / modulation machinery switched on at amplitudes without any physical effect (the dynamic RF map instead of the static one)
+           ["--RFPhaseModAmplitude", 0.01, "--RFPhaseModFrequency", 1e6], ["--RFAmplitudeSpread", 1e-9], ["--RFPhaseSpread", 1e-7, "--LinearRF", "false"]]
     devs = DEV if vlib.wide(tier) else DEV[:7]
     for dv in devs:
         cases.append(("collimator", CURRENTS["collimator"][1], 64, ("Ts", 128), 2.0, 1.2, tuple(dv)))
